@@ -45,6 +45,7 @@ type inProgressResponseStatus struct {
 	updates        []gsmsg.GraphSyncRequest
 	state          graphsync.RequestState
 	networkError   bool
+	task           *peertask.Task
 	startTime      time.Time
 	responseStream responseassembler.ResponseStream
 }
